@@ -15,18 +15,18 @@ namespace fs = std::filesystem;
 static std::vector<uint8_t> V(const char *s) { return std::vector<uint8_t>(s, s + strlen(s)); }
 int main(int argc, char **argv) {
   auto in = replay_io::load(argv[1]);
-  std::string which = in.count("SCENARIO") ? in["SCENARIO"] : "all";
+  std::string which = in.count("SCENARIO") ? in["SCENARIO"] : "registered";   // "registered" = K8 + K9; K7 only on request (observation, not part of the check)
   fs::path dir = fs::temp_directory_path() / ("iora_replay_kv_ops_" + std::to_string(getpid()));
   fs::remove_all(dir); fs::create_directories(dir);
   KVStoreConfig cfg; cfg.enableBackgroundCompaction = false;
   std::string verdict;
-  if (which == "all" || which == "K8") {
+  if (which == "all" || which == "registered" || which == "K8") {
     pid_t pid = fork();
     if (pid == 0) { KVStoreConfig c = cfg; c.maxCacheSize = 0; KVStore s((dir / "z.bin").string(), c); s.set("x", V("1")); bool ok = s.get("x").has_value(); _exit(ok ? 0 : 3); }
     int st = 0; waitpid(pid, &st, 0);
     if (!WIFEXITED(st) || WEXITSTATUS(st) != 0) verdict += " K8: maxCacheSize = 0: set()/get() crashed or lost the key (child status " + std::to_string(st) + ");";
   }
-  if (which == "all" || which == "K9") {
+  if (which == "all" || which == "registered" || which == "K9") {
     pid_t pid = fork();
     if (pid == 0) { KVStore s((dir / "t.bin").string(), cfg); int rc = 0;
       try { s.set("k", V("1"), std::chrono::seconds(10000000000LL)); if (!s.get("k")) rc = 4; } catch (const KVStoreException &) { rc = 0; }
@@ -39,7 +39,7 @@ int main(int argc, char **argv) {
     try {
       KVStore s(path, cfg);
       s.set("a", V("old")); s.set("b", V("keep")); s.set("c", V("c0")); s.set("d", V("d0"), std::chrono::seconds(3600));
-      signal(SIGXFSZ, SIG_IGN); struct rlimit rl; rl.rlim_cur = rl.rlim_max = fs::file_size(path + ".log"); setrlimit(RLIMIT_FSIZE, &rl);
+      signal(SIGXFSZ, SIG_IGN); struct rlimit rl; getrlimit(RLIMIT_FSIZE, &rl); rlim_t keep = rl.rlim_cur; rl.rlim_cur = fs::file_size(path + ".log"); setrlimit(RLIMIT_FSIZE, &rl);
       bool t1 = false, t2 = false, t3 = false, t4 = false;
       try { s.set("a", V("new")); } catch (const std::exception &) { t1 = true; }
       try { s.remove("b"); } catch (const std::exception &) { t2 = true; }
@@ -51,7 +51,7 @@ int main(int argc, char **argv) {
       if (!s.exists("b")) verdict += " K7 ROLLBACK: remove(b) threw, exists(b) = false (reference: true);";
       if (s.ttl("c")) verdict += " K7 ROLLBACK: expireAt(c) threw, c now has a TTL (reference: none);";
       if (!s.ttl("d")) verdict += " K7 ROLLBACK: persist(d) threw, d lost its TTL (reference: still expiring);";
-      rl.rlim_cur = rl.rlim_max = RLIM_INFINITY; setrlimit(RLIMIT_FSIZE, &rl);
+      rl.rlim_cur = keep; setrlimit(RLIMIT_FSIZE, &rl);
     } catch (const std::exception &e) { verdict += std::string(" store threw: ") + e.what(); }
   }
   fs::remove_all(dir);
